@@ -30,8 +30,33 @@
 using namespace enki;
 
 
+// Verification hooks (no effect unless RKCOMMON_VERIF is defined): a spin hint
+// that tells a controlled scheduler "this thread is busy-waiting", and overrides
+// for the pipe size / spin count so that the pipe-full and go-to-sleep paths are
+// reachable with a handful of tasks.
+#ifdef RKCOMMON_VERIF
+extern "C" void rkcommon_verif_spin_hint() __attribute__((weak));
+#define RKCOMMON_VERIF_SPIN_HINT()                                             \
+  do {                                                                         \
+    if (rkcommon_verif_spin_hint)                                              \
+      rkcommon_verif_spin_hint();                                              \
+  } while (0)
+#else
+#define RKCOMMON_VERIF_SPIN_HINT()                                             \
+  do {                                                                         \
+  } while (0)
+#endif
+
+#if defined(RKCOMMON_VERIF) && defined(RKCOMMON_VERIF_PIPESIZE_LOG2)
+static const uint32_t PIPESIZE_LOG2              = RKCOMMON_VERIF_PIPESIZE_LOG2;
+#else
 static const uint32_t PIPESIZE_LOG2              = 8;
+#endif
+#if defined(RKCOMMON_VERIF) && defined(RKCOMMON_VERIF_SPIN_COUNT)
+static const uint32_t SPIN_COUNT                 = RKCOMMON_VERIF_SPIN_COUNT;
+#else
 static const uint32_t SPIN_COUNT                 = 100;
+#endif
 static const uint32_t SPIN_BACKOFF_MULTIPLIER    = 10;
 static const uint32_t MAX_NUM_INITIAL_PARTITIONS = 8;
 
@@ -77,6 +102,7 @@ namespace
     #if ( defined _WIN32 && ( defined _M_IX86  || defined _M_X64 ) ) || ( defined __i386__ || defined __x86_64__ )
     static void SpinWait( uint32_t spinCount_ )
     {
+        RKCOMMON_VERIF_SPIN_HINT();
         uint64_t end = __rdtsc() + spinCount_;
         while( __rdtsc() < end )
         {
@@ -210,6 +236,7 @@ void TaskScheduler::StopThreads( bool bWait_ )
         {
             // keep firing event to ensure all threads pick up state of m_bRunning
             SemaphoreSignal( m_NewTaskSemaphore, m_NumThreadsRunning );
+            RKCOMMON_VERIF_SPIN_HINT();
         }
 
         for( uint32_t thread = 1; thread < m_NumThreads; ++thread )
@@ -273,6 +300,10 @@ bool TaskScheduler::TryRunTask( uint32_t threadNum, uint32_t& hintPipeToCheck_io
         }
     }
 
+    if( !bHaveTask )
+    {
+        RKCOMMON_VERIF_SPIN_HINT(); // callers poll this function in a loop
+    }
     return bHaveTask;
 
 }
